@@ -37,20 +37,20 @@ inductive Ev where
   | serverData (d : Bytes)                              -- on_server_receive(success, |d|)
   | serverErr (ec : Ec)                                 -- on_server_receive(ec, 0)
   | clientWritten (ec : Ec)                             -- on_server_forward (composed write done / failed)
-  | errWritten                                          -- the 503 was written (or not): close_connection
+  | errWritten (ec : Ec)                                -- the 503 was written (or not): the lambda of error()
   | stop                                                -- stop()
   deriving Repr
 
 structure PS where
   p : Px := {}
-  -- outstanding operations
-  accepting  : Bool := false                 -- async_accept outstanding
-  clientRead : Option (Nat × Nat) := none    -- async_read_some on the client: (offset, capacity)
-  resolving  : Bool := false
-  connectingOp : Bool := false               -- async_connect outstanding
-  serverWrite : Option Bytes := none         -- async_write_some on the origin connection: the buffer given
-  serverRead : Bool := false
-  clientWrite : Option WCont := none         -- composed async_write on the client
+  -- outstanding operations, each with the session number it was bound with
+  accepting  : Bool := false                       -- async_accept outstanding
+  clientRead : Option (Nat × Nat × Nat) := none    -- async_read_some on the client: (offset, capacity, session)
+  resolving  : Option Nat := none                  -- async_resolve outstanding
+  connectingOp : Option Nat := none                -- async_connect outstanding
+  serverWrite : Option (Bytes × Nat) := none       -- async_write_some on the origin connection: the buffer given
+  serverRead : Option Nat := none
+  clientWrite : Option (WCont × Nat) := none       -- composed async_write on the client
   -- ghost logs of the current session (reset when the client connection is closed)
   fromClient : Bytes := []                   -- bytes read from the client
   queued     : Bytes := []                   -- bytes appended to m_server_out_buffer
@@ -66,20 +66,21 @@ structure PS where
 def PS.act (s : PS) : Act → PS
   | .listen _ => s
   | .accept => { s with accepting := true }
-  | .readClient off cap => { s with clientRead := some (off, cap) }
-  | .resolve _ _ => { s with resolving := true }
-  | .openServer _ => { s with connectingOp := false, serverWrite := none, serverRead := false }   -- open() closes first
-  | .connect _ _ => { s with connectingOp := true }
-  | .writeServer d => { s with serverWrite := some d }
-  | .readServer => { s with serverRead := true }
-  | .writeClient d .forward => { s with clientWrite := some .forward, toClient := s.toClient ++ d }
-  | .writeClient d .closeConn => { s with clientWrite := some .closeConn, errResp := s.errResp ++ [d] }
+  | .readClient off cap ses => { s with clientRead := some (off, cap, ses) }
+  | .resolve _ _ ses => { s with resolving := some ses }
+  | .cancelResolver => { s with resolving := none }       -- the pending lookup completes with operation_aborted
+  | .openServer _ => { s with connectingOp := none, serverWrite := none, serverRead := none }   -- open() closes first
+  | .connect _ _ ses => { s with connectingOp := some ses }
+  | .writeServer d ses => { s with serverWrite := some (d, ses) }
+  | .readServer ses => { s with serverRead := some ses }
+  | .writeClient d .forward ses => { s with clientWrite := some (.forward, ses), toClient := s.toClient ++ d }
+  | .writeClient d .closeConn ses => { s with clientWrite := some (.closeConn, ses), errResp := s.errResp ++ [d] }
   | .closeClient =>
     -- the connection is gone: its operations are aborted (their completions are ignored), a new
     -- session starts with empty logs
     { s with clientRead := none, clientWrite := none, sessions := s.sessions + 1,
              fromClient := [], queued := [], toOrigin := [], fromOrigin := [], toClient := [], errResp := [] }
-  | .closeServer => { s with connectingOp := false, serverWrite := none, serverRead := false }
+  | .closeServer => { s with connectingOp := none, serverWrite := none, serverRead := none }
   | .closeListen => { s with accepting := false }
   | .destroyServer | .destroyClient | .destroyListen | .destroyResolver => s
   | .queued b => { s with queued := s.queued ++ b }
@@ -89,38 +90,70 @@ def PS.acts (s : PS) (l : List Act) : PS := l.foldl PS.act s
 
 def PS.apply (s : PS) (r : Px × List Act) : PS := ({ s with p := r.1 }).acts r.2
 
-/-- one event -/
+/-- one event: the completion of the operation that is outstanding (with the session number it
+    was bound with), or `stop()` -/
 def PS.step (lit : Bytes → Option Bool) (s : PS) : Ev → PS
   | .accepted ec => ({ s with accepting := false }).apply (onAccept s.p ec)
   | .clientData d =>
-    let off := (s.clientRead.map Prod.fst).getD 0
-    ({ s with clientRead := none, fromClient := s.fromClient ++ d }).apply (onReadRequest lit s.p .ok off d)
-  | .clientErr ec => ({ s with clientRead := none }).apply (onReadRequest lit s.p ec ((s.clientRead.map Prod.fst).getD 0) [])
-  | .lookup ec ips => ({ s with resolving := false }).apply (onDomainLookup s.p ec ips)
-  | .connected ec => ({ s with connectingOp := false }).apply (onConnected s.p ec)
+    match s.clientRead with
+    | none => s
+    | some (off, _, ses) =>
+      ({ s with clientRead := none, fromClient := s.fromClient ++ d }).apply (onReadRequest lit s.p ses .ok off d)
+  | .clientErr ec =>
+    match s.clientRead with
+    | none => s
+    | some (off, _, ses) => ({ s with clientRead := none }).apply (onReadRequest lit s.p ses ec off [])
+  | .lookup ec ips =>
+    match s.resolving with
+    | none => s
+    | some ses => ({ s with resolving := none }).apply (onDomainLookup s.p ses ec ips)
+  | .connected ec =>
+    match s.connectingOp with
+    | none => s
+    | some ses => ({ s with connectingOp := none }).apply (onConnected s.p ses ec)
   | .serverWritten n =>
-    let w := s.serverWrite.getD []
-    ({ s with serverWrite := none, toOrigin := s.toOrigin ++ w.take n }).apply (onServerWrite s.p .ok n)
-  | .serverWriteErr ec => ({ s with serverWrite := none }).apply (onServerWrite s.p ec 0)
-  | .serverData d => ({ s with serverRead := false, fromOrigin := s.fromOrigin ++ d }).apply (onServerReceive s.p .ok d)
-  | .serverErr ec => ({ s with serverRead := false }).apply (onServerReceive s.p ec [])
-  | .clientWritten ec => ({ s with clientWrite := none }).apply (onServerForward s.p ec)
-  | .errWritten => ({ s with clientWrite := none }).apply (closeConnection s.p)
+    match s.serverWrite with
+    | none => s
+    | some (w, ses) =>
+      ({ s with serverWrite := none, toOrigin := s.toOrigin ++ w.take n }).apply (onServerWrite s.p ses .ok n)
+  | .serverWriteErr ec =>
+    match s.serverWrite with
+    | none => s
+    | some (_, ses) => ({ s with serverWrite := none }).apply (onServerWrite s.p ses ec 0)
+  | .serverData d =>
+    match s.serverRead with
+    | none => s
+    | some ses => ({ s with serverRead := none, fromOrigin := s.fromOrigin ++ d }).apply (onServerReceive s.p ses .ok d)
+  | .serverErr ec =>
+    match s.serverRead with
+    | none => s
+    | some ses => ({ s with serverRead := none }).apply (onServerReceive s.p ses ec [])
+  | .clientWritten ec =>
+    match s.clientWrite with
+    | some (.forward, ses) => ({ s with clientWrite := none }).apply (onServerForward s.p ses ec)
+    | _ => s
+  | .errWritten ec =>
+    match s.clientWrite with
+    | some (.closeConn, ses) => ({ s with clientWrite := none }).apply (onErrorWritten s.p ses ec)
+    | _ => s
   | .stop => s.apply (stop s.p)
 
-/-- what the sockets / resolver / acceptor guarantee about the event that comes next -/
+/-- what the sockets / resolver / acceptor guarantee about the event that comes next: it completes
+    an operation that is outstanding; a read delivers between 1 and `cap` bytes; a write to the
+    origin is accepted for a prefix of its buffer (non-empty unless the buffer is);
+    `operation_aborted` is what closing delivers, and that is ignored by every callback -/
 def PS.ok (s : PS) : Ev → Prop
-  | .accepted _ => s.accepting = true
-  | .clientData d => ∃ off cap, s.clientRead = some (off, cap) ∧ 0 < d.length ∧ d.length ≤ cap
+  | .accepted ec => s.accepting = true ∧ ec ≠ .aborted
+  | .clientData d => ∃ off cap ses, s.clientRead = some (off, cap, ses) ∧ 0 < d.length ∧ d.length ≤ cap
   | .clientErr ec => s.clientRead.isSome ∧ ec ≠ .ok ∧ ec ≠ .aborted
-  | .lookup _ _ => s.resolving = true
-  | .connected ec => s.connectingOp = true ∧ ec ≠ .aborted
-  | .serverWritten n => ∃ w, s.serverWrite = some w ∧ n ≤ w.length ∧ (w ≠ [] → 0 < n)
+  | .lookup ec _ => s.resolving.isSome ∧ ec ≠ .aborted
+  | .connected ec => s.connectingOp.isSome ∧ ec ≠ .aborted
+  | .serverWritten n => ∃ w ses, s.serverWrite = some (w, ses) ∧ n ≤ w.length ∧ (w ≠ [] → 0 < n)
   | .serverWriteErr ec => s.serverWrite.isSome ∧ ec ≠ .ok ∧ ec ≠ .aborted
-  | .serverData d => s.serverRead = true ∧ 0 < d.length ∧ d.length ≤ BUF
-  | .serverErr ec => s.serverRead = true ∧ ec ≠ .ok ∧ ec ≠ .aborted
-  | .clientWritten ec => s.clientWrite = some .forward ∧ ec ≠ .aborted
-  | .errWritten => s.clientWrite = some .closeConn
+  | .serverData d => s.serverRead.isSome ∧ 0 < d.length ∧ d.length ≤ BUF
+  | .serverErr ec => s.serverRead.isSome ∧ ec ≠ .ok ∧ ec ≠ .aborted
+  | .clientWritten ec => (∃ ses, s.clientWrite = some (.forward, ses)) ∧ ec ≠ .aborted
+  | .errWritten ec => (∃ ses, s.clientWrite = some (.closeConn, ses)) ∧ ec ≠ .aborted
   | .stop => True
 
 def PS.okRun (lit : Bytes → Option Bool) : PS → List Ev → Prop
